@@ -349,6 +349,7 @@ class NetworkMixin(RadioMixin):
                 or not is_address_valid(self.frame_buf.header.from_node)
             ):
                 # print("discarding frame due to invalid network addresses.")
+                ret_val = 0  # frame_buf no longer holds the frame that was reported
                 continue
 
             # print(
